@@ -149,14 +149,21 @@ fn gen(seed: u64, family: &str, tier: Tier) -> Case {
     gen_algorithm(&mut r, &mut w, true, true);
     gen_termination(&mut r, &mut w);
     let mut pc = gen_plugins(&mut r, &mut w);
-    if family == "yens-known" {
+    if family.starts_with("yens-known") {
         // directed at the two recorded Yen's-algorithm findings, so that every run of the check meets them
         w.algorithm = json!({"type": "yens", "k": r.range(2, 3), "underlying": {"type": "dijkstra"}});
         w.termination = json!({"type": "query_runtime", "limit": "00:10:00", "frequency": 100000});
         w.input_plugins = vec![];
-        pc = PluginChoice { grid: false, lb: None, inject: false, rtree: false };
+        pc = PluginChoice { override_heavy: false, grid: false, lb: None, inject: false, rtree: false };
+        // tiny fixed shapes that are certain to meet each finding: a single edge (best route of one
+        // edge: the `len() - 2` underflow) or a chain of three edges (a pass that accepts no candidate)
+        let n = if family == "yens-known-panic" { 2 } else { 4 };
+        w.coords = (0..n).map(|i| (crate::world::q6(-105.0 + 0.01 * i as f64), 39.7)).collect();
+        w.edges = (0..n - 1).map(|i| (i, i + 1, crate::world::q6(900.0 + 10.0 * i as f64))).collect();
+        w.speeds = vec![50.0; n - 1];
+        w.grades = vec![0.0; n - 1];
     }
-    w.edge_oriented = !pc.rtree && family != "yens-known" && r.chance(0.25);
+    w.edge_oriented = !pc.rtree && !family.starts_with("yens-known") && r.chance(0.25);
     w.parallelism = r.range(1, 8) as usize;
     w.persist = true;
     w.out = None;
@@ -181,7 +188,11 @@ fn gen(seed: u64, family: &str, tier: Tier) -> Case {
             batch.push(q);
         }
     }
-    if nq == 0 {
+    if family.starts_with("yens-known") {
+        batch = vec![json!({"_qid": 0, "origin_vertex": 0, "destination_vertex": w.nv() - 1})];
+        kinds = vec!["plain"];
+    }
+    if nq == 0 && batch.is_empty() {
         kinds.push("empty-batch");
     }
     let mut simcfg = gen_simcfg(&mut r);
@@ -237,7 +248,20 @@ pub fn panic_class(p: &crate::scenario::PanicInfo) -> String {
         Some(i) => file[i + 21..].splitn(2, '/').nth(1).unwrap_or(file),
         None => file,
     };
-    let msg: String = p.message.chars().take(48).map(|c| if c.is_ascii_digit() { '#' } else { c }).collect();
+    // digits (lengths, indices, ids) are not part of the identity of a panic site
+    let mut msg = String::new();
+    for c in p.message.chars() {
+        if c.is_ascii_digit() {
+            if !msg.ends_with('#') {
+                msg.push('#');
+            }
+        } else {
+            msg.push(c);
+        }
+        if msg.len() >= 48 {
+            break;
+        }
+    }
     format!("panic@{}|{}", file, msg)
 }
 
@@ -316,7 +340,8 @@ impl Check for C12 {
         for _ in 0..10 {
             f.extend(["malformed", "malformed", "malformed", "wellformed"]);
         }
-        f[7] = "yens-known";
+        f[7] = "yens-known-panic";
+        f[23] = "yens-known-loop";
         f.push("malformed"); // 41 entries: coprime with the worker count, so directed runs spread over all workers
         f
     }
